@@ -89,6 +89,13 @@ CLAIMED = {
         note=TB + "; generator-based functions (rle_mask, brle_mask, sorted_*_gather_1d) and dense<->run-length converters are covered by the exhaustive bounded tier only; run counts 1..5 are a stated bound for the symbolic codecs.",
         technique="contract-based deductive verification (symbolic execution of the unmodified source over integer run lists and index arrays, position-wise decode spec, z3 LIA) + exhaustive small-scope contract evaluation on the real classes",
     ),
+    "C17": dict(
+        category="proof",
+        text="Ownership contract of every copy routine evaluated on the real objects: for 18 objects/states (meshes fresh / with every cached value read / face colours + nested metadata + attributes / vertex colours / texture / density and centre-of-mass overrides; Box, Cylinder(sections=7), Sphere(subdivisions=1), Capsule, Extrusion, primitive with overrides; Path2D with polygons read, Path3D, PointCloud, nested Scene, dense and run-length VoxelGrid) x copy(), copy.copy, copy.deepcopy (+ include_cache=True): (faithful) every field of the abstract state - arrays, primitive parameters, overrides, attributes, visuals, metadata, scene graph - is equal; (fresh) NO mutable object (writeable array, dict, list, set, geometry / visual / graph / tree object) is reachable from both objects, over every reference path of both object graphs; (frame) up to ten edits, in place and through the API, applied to either object leave every value the other reports - read before and computed after - unchanged. The static obligations (proof-level, tiny): the copy routine of each of the 13 classes named by the statement exists in the current source and never returns self or a bare attribute of self. Seven defects found this way were repaired; sharing of cached objects by include_cache / copy.copy(mesh) is a recorded known finding.",
+        design_ref="DESIGN.md §4 C17",
+        note="the reachability and frame obligations are run-time contract checks over a fixed family (bounded), complete over reference paths but not over objects; only the AST inventory is discharged statically; third-party objects (shapely, networkx, rtree, PIL) count as mutable.",
+        technique="contract-based verification: ownership (fresh) and frame contracts checked by object-graph reachability on the real classes + AST inventory of the copy routines",
+    ),
     "C19": dict(
         category="proof",
         text="Every obligation generated from the current source of trimesh/transformations.py (rotation_matrix, quaternion_*, euler_* for all 24 conventions, compose/decompose, transform_points, planar/scale/translate helpers) is discharged by z3/cvc5 for all real inputs: orthonormality, det=+1, round trips, representation agreement, fixed points. Fixed-size matrices, so no bound on inputs.",
